@@ -79,7 +79,13 @@ def gen_case(rng, tier, index):
             "pattern": rng.getrandbits(30),
             "seed": rng.getrandbits(32), "sched_seed": rng.getrandbits(48),
             "policy": rng.choice(S.POLICIES),
-            "policy_param": rng.randrange(0, 4)}
+            "policy_param": rng.randrange(0, 4),
+            # the repeating stream of a selected part of the split (first k
+            # shards / at most k shards per metadata value) cycles through
+            # that part, in every epoch
+            "select": rng.choice([None, None, None, ["limit", 1],
+                                  ["limit", 2], ["shards", 1], ["shards", 2],
+                                  ["shards", 3]])}
 
 
 def run_case(case):
@@ -112,6 +118,26 @@ def run_case(case):
         fp = max(1, fp)
         opts = {"repeat": True, "shuffle": sh, "fp": fp,
                 "batch": case.get("batch", 0)}
+        sel = case.get("select")
+        if sel and not (case.get("two_streams") and iface in ("rust", "sync")):
+            sopt = ({"limit": sel[1]} if sel[0] == "limit" and iface in (
+                "sync", "conc", "tfdata") else
+                    {"shards": max(1, min(nshards, sel[1]))})
+            with env.fs.suspended():
+                part = [dsgen.canon(x, st["attrs"])[0] for x in
+                        eread.make_iter(env.open(), "sync", split, dict(
+                            sopt, repeat=False, shuffle=0, fp=1))]
+            if part:
+                opts.update(sopt)
+                ids = list(part)
+                N = len(ids)
+                probes["repeating_stream_of_a_selection"] += 1
+                if N < len(env.model.ids(split)):
+                    probes["selection_smaller_than_the_split"] += 1
+            else:
+                sel = None
+        else:
+            sel = None
         if iface == "tfdata" and case.get("tf_reiterate"):
             opts["tf_reiterate"] = list(case["tf_reiterate"])
             probes["tfdata_object_iterated_again"] += 1
@@ -125,6 +151,8 @@ def run_case(case):
         ds = env.open()
         one_pass = [i for i, _ in dsgen.read_sync(env.open(), split,
                                                   st["attrs"])]
+        if sel:
+            one_pass = list(ids)
         if case.get("shuffled_first"):
             pre = "rust" if (case["seed"] & 8 and eread.supports(
                 "rust", st)) else "sync"
@@ -300,7 +328,8 @@ def reach(agg):
                  "parallelism_not_multiple_of_shards",
                  "two_repeating_streams_interleaved",
                  "more_than_a_thousand_epochs",
-                 "shuffled_pass_before_the_stream"):
+                 "shuffled_pass_before_the_stream",
+                 "selection_smaller_than_the_split"):
         if not p.get(name):
             need.append(f"probe {name} never hit")
     if bootstrap.RUST_SOURCE not in ("none", "stub") and not p.get(
